@@ -156,7 +156,8 @@ class PopulationBalanceModel:
         TODO: Make sure this works when adaptive bins is False
         '''
         if self._record:
-            maxBins = self.maxBins if self._adaptiveBinSize else self.bins
+            #Widen the recorded arrays only if the current number of bins does not fit (this can never be a negative padding)
+            maxBins = np.amax([self.bins, self._recordedPSD.shape[1]])
             self._recordedBins = np.pad(self._recordedBins, ((0, 1), (0, maxBins+1 - self._recordedBins.shape[1])))
             self._recordedPSD = np.pad(self._recordedPSD, ((0, 1), (0, maxBins - self._recordedPSD.shape[1])))
             self._recordedTime = np.pad(self._recordedTime, (0,1))
